@@ -3,6 +3,3 @@ package c19
 // modelCases emits the layer-2 correspondence lines of the modelled codecs
 // other than data forms.
 func modelCases(c *ctx) {}
-
-// Facts regenerates lean/XmppModel/Generated/C19.lean.
-func Facts(repo string) (string, error) { return "", nil }
